@@ -17,7 +17,11 @@ EXPLANATION = (
     "stall notification, the flush trigger by its notification, and imm_trigger is written nowhere else; (C20.4) a failed "
     "compaction releases its claim, applying a compaction removes the claim first, and only emit_compaction adds claims; "
     "(C20.5) the accumulator written only under should_perform_mandatory_compaction() reaches emit_compaction on every path and "
-    "under no score comparison.  "
+    "under no score comparison; (C20.6) the ingest stall predicate and the mandatory-compaction predicate are siblings: every comparison "
+    "the stall predicate makes is a comparison the mandatory predicate also makes -- same quantity of the tree, same operator, its own "
+    "threshold -- and the stall predicate reads nothing but the version, so an ingest is never held back on a condition that forces no compaction; "
+    "(C20.7) in find_best_compaction every limit taken from the options that can end the search before a candidate exists exempts level 0, as "
+    "the byte limit does -- a level-0 compaction is the only relief of a stalled ingest (the file-count limits do not: known finding F17).  "
     "HELD/Acquires summaries, ORDER, MUSTPASS, GUARDED over resolved MIR.")
 NOT_DECIDED = ("that a relieving compaction is always selectable (find_best_compaction can return nothing for configuration- and "
                "shape-dependent reasons), scheduler fairness; observation O4: a finishing compaction wakes `stall` waiters but not "
@@ -52,6 +56,8 @@ def rules(ctx):
     c203(ctx)
     c204(ctx)
     c205(ctx)
+    c206(ctx)
+    c207(ctx)
     # every write goes through the log's coalescing queues and the store's wait list: a lost wake-up there blocks writes for ever
     from . import C18
     C18.c181(ctx)
@@ -406,3 +412,142 @@ def c204(ctx):
         ok = all(sk.startswith("lsmtk::tree::Version::") for sk in callers)
         ctx.check(R, f, "emit-callers", ok and len(callers) >= 1, "claims are emitted only by Version's selection functions: %s" % sorted(callers),
                   "emit_compaction is called from %s" % sorted(callers))
+
+
+# ------------------------------------------------------------------------------------------------
+# C20.6 a stalled ingest is a mandated compaction: the two predicates compare the same quantities
+
+def deep_sig(f, op, depth=0):
+    """Name-free description of a value: K.sig tokens, descending into the arguments of the calls that produce it."""
+    toks = set()
+    for t_ in K.sig(f, op):
+        toks.add(t_)
+    if depth < 4:
+        for s_ in P.value_slice(f, op)[0]:
+            if s_["k"] == "call" and not P.TRANSPARENT.search(s_["callee"]) and not P.WRAPPERS.search(s_["callee"]):
+                for a_ in s_["t"]["args"]:
+                    for t2 in deep_sig(f, a_, depth + 1):
+                        toks.add(t2)
+            elif s_["k"] == "bin" and s_["op"] not in K.CMP_OPS:
+                toks.add("op:" + s_["op"].replace("WithOverflow", ""))
+    return toks
+
+
+def predicate_atoms(f):
+    """Comparisons written in the body of a boolean function: [(op, quantity signature, threshold field, point)] where the threshold is
+    the side that reads an options field."""
+    out = []
+    for b in f.blocks:
+        for i, st in enumerate(b.st):
+            if st["s"] != "=" or st["rv"]["r"] != "bin" or st["rv"]["op"] not in K.CMP_OPS or st["sp"][3]:
+                continue
+            sa, sb = deep_sig(f, st["rv"]["a"]), deep_sig(f, st["rv"]["b"])
+            op = st["rv"]["op"]
+            if "f:options" in sa and "f:options" not in sb:
+                sa, sb = sb, sa
+                op = {"Lt": "Gt", "Le": "Ge", "Gt": "Lt", "Ge": "Le"}.get(op, op)
+            thr = sorted(t_ for t_ in sb if t_.startswith("f:") and t_ != "f:options")
+            # x + 1 > t  is  x >= t  (and x + 1 <= t is x < t) for unsigned counts
+            if {"op:Add", "k:1"} <= sa and op in ("Gt", "Le"):
+                sa = sa - {"op:Add", "k:1"}
+                op = "Ge" if op == "Gt" else "Lt"
+            out.append((op, frozenset(sa), tuple(thr), (b.idx, i)))
+    return out
+
+
+def c206(ctx):
+    R = "C20.6"
+    ctx.declare(R, "an ingest is stalled only on a condition that also makes a compaction mandatory")
+    st = ctx.fn(R, "lsmtk::tree::Version::should_stall_ingest")
+    ma = ctx.fn(R, "lsmtk::tree::Version::should_perform_mandatory_compaction")
+    if not st or not ma:
+        return
+    ctx.check(R, st, "reads-only-the-version", st.argc == 1, "the stall predicate is a function of the version alone",
+              "should_stall_ingest takes %d arguments: a wait on `stall` is ended only by a compaction, and a compaction changes nothing but the "
+              "version -- a term that does not come from the version can keep the predicate true on an empty level 0, where no compaction is possible" % st.argc)
+    sa = predicate_atoms(st)
+    mm = predicate_atoms(ma)
+    ctx.floor(R, "comparisons in should_stall_ingest", len(sa), 2)
+    ctx.floor(R, "comparisons in should_perform_mandatory_compaction", len(mm), 2)
+    for op, q, thr, pt in sa:
+        # `q > s` implies `q >= m` and `q > m` whenever s >= m; `q >= s` implies only `q >= m`
+        twin = [m for m in mm if m[1] == q and (m[0] == op or (op == "Gt" and m[0] == "Ge"))]
+        names = ",".join(t_[2:] for t_ in thr) or "?"
+        ctx.check(R, st, "stall-implies-mandatory:" + names, bool(twin) and "f:options" not in q and bool(thr),
+                  "the stall test against %s compares the quantity the mandatory test against %s compares, with the same operator" %
+                  (names, ",".join(t_[2:] for t_ in twin[0][2]) if twin else "-"),
+                  "should_stall_ingest compares %s %s %s, which no comparison of should_perform_mandatory_compaction matches: an ingest can be held back "
+                  "while no compaction is mandatory, and then nothing ever relieves it" % (sorted(q), op, names), pt=pt)
+    f = ctx.fn(R, TREE + "apply_manifest_ingest")
+    if f:
+        ws = [p_ for p_ in P.call_points(f, r"Condvar::wait$") if "stall" in K.arg_field_names(f, p_, 0)]
+        ctx.floor(R, "stall waits in apply_manifest_ingest", len(ws), 1)
+        for w in ws:
+            preds = set()
+            for bb, lab, srcs in K.guards(f, w):
+                for s_ in srcs:
+                    if s_["k"] == "call" and s_["callee"].startswith("lsmtk::"):
+                        preds.add(s_["callee"])
+            ctx.check(R, f, "waits-on-the-stall-predicate", preds == {"lsmtk::tree::Version::should_stall_ingest"},
+                      "the stall wait is conditioned on should_stall_ingest alone", "the stall wait is conditioned on %s" % sorted(preds), pt=w)
+
+
+# ------------------------------------------------------------------------------------------------
+# C20.7 a mandatory level-0 compaction is always selectable: option limits that end the search exempt level 0
+
+def c207(ctx):
+    R = "C20.7"
+    ctx.declare(R, "no option limit can leave level 0 without a selectable compaction: every limit gate of find_best_compaction exempts lower_level == 0")
+    f = ctx.fn(R, "lsmtk::tree::Version::find_best_compaction")
+    if not f:
+        return
+    # loop head: the range iterator's next() that is on a cycle
+    heads = [P.term_pt(f, b.idx) for b, t in f.calls() if re.search(r"::next$", callee_skey(t) or "") and
+             P.reach(f, P.after(f, P.term_pt(f, b.idx)), [P.term_pt(f, b.idx)]) is not None]
+    rets = P.return_points(f)
+    # tests of `lower_level != 0` (parameter 3)
+    lvl_edges = set()
+    for b in P.switch_blocks(f):
+        for s_ in P.switch_cond_sources(f, b.idx):
+            if s_["k"] == "bin" and s_["op"] in ("Ne", "Eq"):
+                rv = s_["st"]["rv"]
+                pa = [x for x in P.origins(f, rv["a"]) if x["k"] == "param"]
+                cb = rv["b"].get("k") == "const" and rv["b"]["c"].get("v") == 0
+                if pa and pa[0]["i"] == 3 and cb:
+                    negs = sum(1 for x in P.switch_cond_sources(f, b.idx) if x["k"] == "un" and x["op"] == "Not")
+                    nonzero_true = (s_["op"] == "Ne") != bool(negs % 2)
+                    lvl_edges.add((b.idx, "sw:1" if nonzero_true else "sw:0"))
+    gates = []
+    for b in P.switch_blocks(f):
+        srcs = P.switch_cond_sources(f, b.idx)
+        bins = [x for x in srcs if x["k"] == "bin" and x["op"] in ("Gt", "Ge", "Lt", "Le") and not x["st"]["sp"][3]]
+        if len(bins) != 1:
+            continue
+        rv = bins[0]["st"]["rv"]
+        sa, sb = K.sig(f, rv["a"]), K.sig(f, rv["b"])
+        if ("f:options" in sa) == ("f:options" in sb):
+            continue
+        lim_left = "f:options" in sa
+        lim = sorted(t_[2:] for t_ in (sa if lim_left else sb) if t_.startswith("f:") and t_ != "f:options")
+        op = bins[0]["op"]
+        exceeded_when_true = (op in ("Gt", "Ge")) != lim_left
+        negs = sum(1 for x in srcs if x["k"] == "un" and x["op"] == "Not")
+        if negs % 2:
+            exceeded_when_true = not exceeded_when_true
+        gates.append((b, "sw:1" if exceeded_when_true else "sw:0", ",".join(lim)))
+    gate_terms = {P.term_pt(f, b.idx) for b, _l, _n in gates}
+    n = 0
+    for b, lab, name in gates:
+        starts = [(s_, 0) for l_, s_ in b.succs if l_ == lab or (lab == "sw:1" and l_ == "otherwise")]
+        others = gate_terms - {P.term_pt(f, b.idx)}
+        ends_search = P.reach(f, starts, rets, avoid=set(heads) | others)
+        if ends_search is None:
+            continue
+        n += 1
+        q = P.reach(f, starts, rets, avoid=set(heads) | others, avoid_edges={(bb, l_) for bb, l_ in lvl_edges})
+        ctx.check(R, f, "gate-exempts-level-0:" + name, q is None,
+                  "exceeding %s ends the search only when lower_level != 0" % name,
+                  "find_best_compaction gives up when %s is exceeded even for lower_level == 0: once level 0 together with the level-1 files it overlaps "
+                  "is past the limit no level-0 compaction can be chosen, next_compaction has nothing mandatory to emit, and an ingest that waits on "
+                  "`stall` is never relieved (the byte limit exempts level 0 for exactly this reason)" % name, pt=P.term_pt(f, b.idx), path=q)
+    ctx.floor(R, "limit gates in find_best_compaction", n, 3)
